@@ -10,7 +10,9 @@ with what the budget, the generated samples and the recorded history allow.
 
 from __future__ import annotations
 
+import contextlib
 import gc
+import io
 import logging
 import warnings
 
@@ -79,6 +81,9 @@ ASSUMPTIONS = [
     "third-party internal caches count as part of the algorithm: repeated calls at one point are never counted twice",
     "with max_time only the degenerate value 1e-9 is generated (fires at the first new-iteration callback; no "
     "wall-clock oracle)",
+    "DOE samples that are equal as numbers but differ in the sign of a zero (-0.0 from rounding an integer component "
+    "against 0.0) are two keys of the byte-hashed database and are evaluated twice: the property does not say whether "
+    "they are 'distinct'; such designs get no verdict (class doe_signed_zero_twin_samples_no_verdict)",
     "DOE with normalize_design_space=True: database keys are compared with the samples to 4 ulp of the bound scale "
     "(the sample goes through normalise/unnormalise)",
 ]
@@ -90,6 +95,7 @@ K_LP_EXTRA_POINT = "coefficient_solver_final_evaluation_outside_budget"
 K_LP_EARLY_STOP = "coefficient_solver_early_stop_type_error"
 K_GLOBAL_LISTENER = "global_optimizer_listener_left_behind"
 K_MULTISTART_NORM = "multistart_normalized_design_space"
+K_DOE_NORM = "doe_normalized_design_space"
 
 EXCLUDED_ALGORITHMS = {
     "MNBI": "multi-objective only: its result is a MultiObjectiveOptimizationResult built from the Pareto front of the "
@@ -299,8 +305,19 @@ def _case_opt(p, ctx, cp, algo, cap, h, settings, use_db, n_iter, coefficient_so
         return
     if result is None:  # documented exception of MNBI
         return
+    counter = int(h.problem.evaluation_counter.current)
+    if not cap["composite"]:
+        ctx.check(counter == growth, "counter", f"first execution: the evaluation counter holds {counter} after {growth} new database entries",
+                  algo=algo, max_iter=n_iter)
     _check_result(h, result, p, settings, ctx, "first execution", coefficient_solver)
     message = str(result.message)
+    if growth >= 1 and p["stop"] != "time" and not h.state["nan_returned"]:
+        # a budget of N >= 1 points pays for the whole first point: _pre_run evaluates the objective and every
+        # constraint at x0 before the algorithm starts
+        first = h.db_keys()[0]
+        missing = [name for name in (h.obj_name, *h.con_names) if h.problem.database.get_function_value(name, first) is None]
+        ctx.check(not missing, "first_point_complete",
+                  f"first execution: the first database entry lacks {missing} although max_iter={n_iter} >= 1 (message {message!r})")
     stopped_by_gemseo = "GEMSEO stopped the driver" in message
     if p["stop"] == "time":
         ctx.check(growth == 1, "termination", f"max_time=1e-9: {growth} entries were created before the time limit fired", result_message=message)
@@ -343,7 +360,12 @@ def _case_opt(p, ctx, cp, algo, cap, h, settings, use_db, n_iter, coefficient_so
                       f"the evaluation counter holds {counter_before} after a first execution that created {growth} entries")
             if allowed == 0:
                 ctx.cls("second_budget_already_spent")
-        _budget_oracles(h, p, ctx, "second execution", algo2, cap2, n2, marks2, old_keys, allowed, extra2)
+        growth2, _ = _budget_oracles(h, p, ctx, "second execution", algo2, cap2, n2, marks2, old_keys, allowed, extra2)
+        counter2 = int(h.problem.evaluation_counter.current)
+        expected2 = growth2 if reset else counter_before + growth2
+        ctx.check(counter2 == expected2, "counter",
+                  f"second execution (reset_iteration_counters={reset}): the evaluation counter holds {counter2}, expected {expected2} "
+                  f"({counter_before} before, {growth2} new entries)")
         _check_result(h, result2, p, settings2, ctx, "second execution", cap2["library"] in ("ScipyLinprog", "ScipyMILP"))
         if "GEMSEO stopped the driver" in str(result2.message):
             ctx.cls("second_stopped_by_gemseo")
@@ -396,11 +418,13 @@ def _run_doe(h, p, ctx, where, seed_shift=0, **more):
 
     lib = DOELibraryFactory().create(p["algo"])
     settings = _doe_settings(p, h, seed_shift)
+    parallel = int(p.get("n_processes", 1)) > 1
     try:
-        with warnings.catch_warnings():
+        # the forked workers print the traceback of a refused sample on sys.stderr (inherited through the fork)
+        with warnings.catch_warnings(), (contextlib.redirect_stderr(io.StringIO()) if parallel else contextlib.nullcontext()):
             warnings.simplefilter("ignore")
             result = lib.execute(h.problem, eval_jac=bool(p["eval_jac"]), normalize_design_space=bool(p["normalize_design_space"]),
-                                 **settings, **more)
+                                 n_processes=int(p.get("n_processes", 1)), **settings, **more)
     except Exception as exc:  # noqa: BLE001
         ctx.fail("doe_returns", f"{where}: {p['algo']}.execute raised {type(exc).__name__}: {str(exc)[:300]}")
     ctx.check(isinstance(result, OptimizationResult), "doe_returns", f"{where}: execute returned {type(result).__name__}")
@@ -413,6 +437,16 @@ def _match(key, sample, tol):
     return key.shape == sample.shape and bool(np.all(np.abs(key - sample) <= tol))
 
 
+def _static_rule_keys(h, samples, attr):
+    """Samples on which a half-space rule hits, decided from the sample alone (parallel runs leave no call record)."""
+    out = set()
+    for counted in h.counted:
+        rule = getattr(counted, attr)
+        if rule is not None and rule["kind"] == "half":
+            out |= {point_key(srow) for srow in samples if counted.hits(rule, srow, None)}
+    return out
+
+
 def _doe_oracles(h, p, ctx, where, samples, old_keys, marks, budget_left):
     """Compare the database and the call records with the generated samples.
 
@@ -423,13 +457,18 @@ def _doe_oracles(h, p, ctx, where, samples, old_keys, marks, budget_left):
     exact = not p["normalize_design_space"]
     # normalise / unnormalise round trip: a few ulp of the bound scale
     tol = 0.0 if exact else 4 * np.finfo(float).eps * np.maximum(np.maximum(np.abs(space.lb), np.abs(space.ub)), space.ub - space.lb)
+    raw = {point_key(k): k for k in h.db_keys()}  # keys in their own dtype (int64 for all-integer spaces) for look-ups
     keys = [k.real.astype(float) for k in h.db_keys()]
     new_keys = [k for k in keys if point_key(k) not in old_keys]
+    parallel = int(p.get("n_processes", 1)) > 1
     failing = set()
     nan_keys = set()
     for counted in h.counted:
         failing |= counted.raised_keys
         nan_keys |= counted.nan_keys
+    if parallel:
+        failing = _static_rule_keys(h, samples, "raise_rule")
+        nan_keys = _static_rule_keys(h, samples, "nan_rule")
     # distinct samples in generation order (a sample equal to an old key is not new)
     distinct = []
     for srow in samples:
@@ -476,25 +515,32 @@ def _doe_oracles(h, p, ctx, where, samples, old_keys, marks, budget_left):
         kb = point_key(k)
         for i, (counted, name) in enumerate(zip(h.counted, names)):
             n_calls = counted.n_calls_at(kb, "f", marks[i])
-            ctx.check(n_calls == 1, "doe_once", f"{where}: function {counted.poly.name} was called {n_calls} times at sample {k.tolist()}")
-            stored = h.problem.database.get_function_value(name, k)
+            ctx.check(n_calls == 1 or parallel, "doe_once", f"{where}: function {counted.poly.name} was called {n_calls} times at sample {k.tolist()}")
+            stored = h.problem.database.get_function_value(name, raw[kb])
             ctx.check(stored is not None, "doe_values", f"{where}: no value of {name} recorded at sample {k.tolist()}")
             ref = np.atleast_1d(counted.poly.value(k))
             if i == 0 and h.spec.get("maximize"):
                 ref = -ref
             got = np.atleast_1d(np.asarray(stored, dtype=float))
-            if kb in counted.nan_keys:
+            is_nan = kb in counted.nan_keys or (parallel and counted.nan_rule is not None and counted.hits(counted.nan_rule, k, None))
+            if is_nan:
                 ctx.check(got.shape == ref.shape and bool(np.isnan(got).all()), "doe_values", f"{where}: NaN value of {name} not recorded as NaN")
             else:
-                ctx.check(got.shape == ref.shape and bool(np.all(got == ref)), "doe_values",
+                # the same polynomial evaluated on a view and on a copy of the sample: BLAS may sum in another order
+                err = 16 * np.finfo(float).eps * max(counted.poly.magnitude(k), 1e-300)
+                ctx.check(got.shape == ref.shape and bool(np.all(np.abs(got - ref) <= err)), "doe_values",
                           f"{where}: {name} recorded as {got.tolist()} at {k.tolist()}, the function returned {ref.tolist()}")
             if p["eval_jac"]:
                 n_j = counted.n_calls_at(kb, "j", marks[i])
-                ctx.check(n_j == 1, "doe_once", f"{where}: Jacobian of {counted.poly.name} was called {n_j} times at sample {k.tolist()}")
-    # failing samples: the raising function is not retried, the others are called at most once
+                ctx.check(n_j == 1 or parallel, "doe_once", f"{where}: Jacobian of {counted.poly.name} was called {n_j} times at sample {k.tolist()}")
+    # failing samples: nothing was recorded for them, so a duplicate of a failing sample may be tried again, but never
+    # more often than it occurs in the design
     for kb in failing:
+        occurrences = sum(1 for srow in samples if _match(np.frombuffer(kb, dtype=float), srow, tol))
         for i, counted in enumerate(h.counted):
-            ctx.check(counted.n_calls_at(kb, "f", marks[i]) <= 1, "doe_once", f"{where}: function {counted.poly.name} was called more than once at a failing sample")
+            n_calls = counted.n_calls_at(kb, "f", marks[i])
+            ctx.check(n_calls <= max(1, occurrences), "doe_once",
+                      f"{where}: function {counted.poly.name} was called {n_calls} times at a failing sample occurring {occurrences} times")
     # nothing else was evaluated
     allowed_pts = {seen_key(srow) for srow in fresh} | {point_key(k) for k in new_keys}
     for counted, m in zip(h.counted, marks):
@@ -503,6 +549,14 @@ def _doe_oracles(h, p, ctx, where, samples, old_keys, marks, budget_left):
                       f"{where}: function {counted.poly.name} was called at {np.frombuffer(key, dtype=float).tolist()}, which is not a generated sample")
     return {"n_samples": len(samples), "n_distinct": len(distinct), "n_dup": n_dup, "n_fresh": len(fresh), "n_failing": len(failing),
             "n_new": len(new_keys), "n_nan": len(nan_keys)}
+
+
+def _signed_zero_twins(samples) -> bool:
+    """Two samples equal as numbers but not as bytes (-0.0 against 0.0, produced by rounding integer components)."""
+    by_value = {}
+    for srow in samples:
+        by_value.setdefault((srow + 0.0).tobytes(), set()).add(srow.tobytes())
+    return any(len(v) > 1 for v in by_value.values())
 
 
 def case_doe(p, ctx):
@@ -519,10 +573,16 @@ def case_doe(p, ctx):
         openturns.RandomGenerator.SetSeed(seed)
     except ImportError:
         pass
+    if p["normalize_design_space"] and ctx.known(K_DOE_NORM):
+        ctx.cls("excluded_by_known_finding")
+        return
     h = HarnessProblem(p["problem"], cap=CAP_CALLS)
     ctx.cls(f"doe:{algo}")
     marks = h.mark()
     result, samples = _run_doe(h, p, ctx, "first execution")
+    if _signed_zero_twins(samples):
+        ctx.cls("doe_signed_zero_twin_samples_no_verdict")
+        return
     stats = _doe_oracles(h, p, ctx, "first execution", samples, set(), marks, None)
     counter = int(h.problem.evaluation_counter.current)
     ctx.check(counter == stats["n_new"], "counter", f"the evaluation counter holds {counter} after a DOE that created {stats['n_new']} entries")
@@ -536,6 +596,8 @@ def case_doe(p, ctx):
         ctx.cls("doe_normalized")
     if p["eval_jac"]:
         ctx.cls("doe_eval_jac")
+    if int(p.get("n_processes", 1)) > 1:
+        ctx.cls("doe_parallel")
     if any(v["type"] == "integer" for v in p["problem"]["space"]["vars"]):
         ctx.cls("doe_integer_variables")
     if stats["n_dup"] or stats["n_failing"]:
@@ -551,6 +613,9 @@ def case_doe(p, ctx):
         for counted in h.counted:
             counted.raised_keys.clear()
         _, samples2 = _run_doe(h, p, ctx, "second execution", seed_shift=0 if second["same_seed"] else 1, reset_iteration_counters=reset)
+        if _signed_zero_twins(np.vstack([samples, samples2])):
+            ctx.cls("doe_signed_zero_twin_samples_no_verdict")
+            return
         left = None if reset else max(0, len(samples2) - counter)
         stats2 = _doe_oracles(h, p, ctx, "second execution", samples2, old_keys, marks2, left)
         if stats2["n_fresh"]:
@@ -574,8 +639,18 @@ def run(ctx):
     ctx.extra["optimization_algorithms"] = names
     ctx.extra["doe_algorithms"] = sorted(cp["doe"])
     non_global = [n for n in single if not cp["opt"][n]["global"]]
-    for name in single:  # one drive per algorithm: every algorithm is exercised at every seed
-        ctx.drive("opt", opt_cases(cp["opt"], [name], non_global), _timed(case_opt), quick=9, thorough=90)
+    # one drive per algorithm: every algorithm is exercised at every seed; once an oracle family has reported a
+    # violation its remaining drives are skipped (each would spend its own shrinking budget on the same defect)
+    def failed(oracle):
+        return any(v["oracle"] == oracle for v in ctx.violations)
+
+    shrink = 15.0 if ctx.tier == "quick" else 120.0
+    for name in single:
+        if not failed("opt"):
+            ctx.drive("opt", opt_cases(cp["opt"], [name], non_global), _timed(case_opt), quick=16, thorough=110, shrink_s=shrink)
     for name in composite:
-        ctx.drive("composite", opt_cases(cp["opt"], [name]), _timed(case_composite), quick=7, thorough=70)
-    ctx.drive("doe", doe_cases(cp["doe"], sorted(cp["doe"])), _timed(case_doe), quick=150, thorough=1500)
+        if not failed("composite"):
+            ctx.drive("composite", opt_cases(cp["opt"], [name]), _timed(case_composite), quick=10, thorough=80, shrink_s=shrink)
+    for name in sorted(cp["doe"]):
+        if not failed("doe"):
+            ctx.drive("doe", doe_cases(cp["doe"], [name]), _timed(case_doe), quick=6, thorough=60, shrink_s=shrink)
